@@ -204,7 +204,8 @@ def merge_repeated_kwargs(params: List[TagParam]) -> List[TagParam]:
         # Case: First time we see a kwarg
         if param.key not in params_by_key:
             params_by_key[param.key] = param
-            param_indices_by_key[param.key] = index
+            # NOTE: Position within `resolved_params`, which is shorter than `params` once repeated kwargs got merged
+            param_indices_by_key[param.key] = len(resolved_params)
             resolved_params.append(param)
         # Case: A kwarg is repeated - we merge the values into a single string, with a space in between.
         else:
